@@ -152,7 +152,7 @@ def ref_filters(e, prog, cell, ws):
         if ch == 'G':
             e.run(hlib.fn(prog, 'ConcatGraphemeClustersFilter', 'filter', 'SentenceFilter'), [Ref(Cell(Agg([], ty='ConcatGraphemeClustersFilter'))), Ref(cell)])
         else:
-            filt = P.mk_struct(prog, 'KyteaWsConstFilter', char_type=Int(P.TYPE_CODE[ch], 8))
+            filt = P.wsconst_filter(e, prog, ch)
             e.run(hlib.fn(prog, 'KyteaWsConstFilter', 'filter', 'SentenceFilter'), [Ref(Cell(filt)), Ref(cell)])
 
 
